@@ -14,7 +14,7 @@
    theorem holds for every F.  Comparison results of the model are -1/0/1
    (memcmp/strcmp are modelled by their sign). *)
 From Coq Require Import List ZArith.
-From RtoscV Require Import ArgVal.AvModel ArgVal.AvSpec ArgVal.AvCmpProofs.
+From RtoscV Require Import ArgVal.AvModel ArgVal.AvSpec ArgVal.AvCmpProofs ArgVal.AvRegress.
 Import ListNotations.
 Local Open Scope Z_scope.
 
@@ -141,3 +141,47 @@ Theorem C16_nonvacuous : forall F,
   denote F ex_compressed ex_values /\ denote F ex_plain ex_values /\ all_nonan ex_values /\
   ex_compressed <> ex_plain.
 Proof. exact nonvacuous. Qed.
+
+(* ---- regressions: the functions as they were BEFORE the fix: commits (kept
+   in ArgVal/AvRegress.v) violate the property; witnesses replayed on the
+   pinned tree, see notes/C16.md and corpus/C16/defects.txt ------------------------ *)
+
+(* D14: empty 'T' array against empty 'i' array: cmp 0, reverse 1, eq false *)
+Theorem C16_old_D14_antisym_refuted :
+  exists a b va vb, denote F0 a va /\ denote F0 b vb /\ all_nonan va /\ all_nonan vb /\
+    cmp_D14 a b = Some 0 /\ cmp_D14 b a = Some 1 /\
+    vals_eq F0 a b (Zlength a) (Zlength b) = Some false.
+Proof. exact D14_antisym_refuted. Qed.
+
+(* D15: blob 01 02 against 01 02 00: cmp 0 both ways, eq false *)
+Theorem C16_old_D15_eq_iff_cmp0_refuted :
+  exists a b va vb, denote F0 a va /\ denote F0 b vb /\ all_nonan va /\ all_nonan vb /\
+    cmp_D15 a b = Some 0 /\ cmp_D15 b a = Some 0 /\
+    vals_eq F0 a b (Zlength a) (Zlength b) = Some false.
+Proof. exact D15_eq_iff_cmp0_refuted. Qed.
+
+(* D22: [true false]:F < [nil] < [false true]:T but [true false] > [false true] *)
+Theorem C16_old_D22_trans_refuted :
+  exists a b c va vb vc,
+    denote F0 a va /\ denote F0 b vb /\ denote F0 c vc /\
+    all_nonan va /\ all_nonan vb /\ all_nonan vc /\
+    cmp_D22 a b = Some (-1) /\ cmp_D22 b c = Some (-1) /\ cmp_D22 a c = Some 1.
+Proof. exact D22_trans_refuted. Qed.
+
+(* D23: 2x[1] against [1][1]: the old iterator makes cmp read out of bounds (None),
+   also when only iterating; the repaired one gives 0 *)
+Theorem C16_old_D23_compress_refuted :
+  exists a a' v, denote F0 a v /\ denote F0 a' v /\ all_nonan v /\
+    cmp_D23 a' a' = Some 0 /\ cmp_D23 a a' = None /\
+    iterate_from false F0 (fuel_of a) (itr_init a) (Zlength a) = None /\
+    vals_cmp F0 a a' (Zlength a) (Zlength a') = Some 0.
+Proof. exact D23_compress_refuted. Qed.
+
+(* D24: (true, 5): the old rtosc_avmessage takes the integer's payload from the
+   entry of 'true' (None in the model: that value has no payload) *)
+Theorem C16_old_D24_message_refuted :
+  exists a v, denote F0 a v /\
+    avmessage_gen false F0 [47; 97] a (Zlength a) = None /\
+    message_of [47; 97] v = Some [47; 97; 0; 0; 44; 84; 105; 0; 0; 0; 0; 5] /\
+    avmessage F0 [47; 97] a (Zlength a) = message_of [47; 97] v.
+Proof. exact D24_message_refuted. Qed.
